@@ -687,6 +687,82 @@ mut("C14", "pending-counts-len-of-blocking-queue", "tasklane", [(TL,
 	_ = tl.blockingTaskCnt.Load()""")])
 
 
+# ---- C12 ---------------------------------------------------------------------------------
+FL = "util/netutil/filter.go"
+mut("C12", "contains-without-rlock", "util/netutil", [(FL,
+ """	f.mutex.RLock()
+	defer f.mutex.RUnlock()
+""", "")])
+mut("C12", "mode-published-before-maps-filled", "util/netutil", [(FL,
+ """			f.mode = modeMaps
+			for i := 0; i < len(f.ipMaps); i++ {
+				f.ipMaps[i] = make(map[uint32]bool)
+			}
+			for i := 0; i < f.index; i++ {
+				if f.ipList[i][1] > 0 {
+					f.ipMaps[f.ipList[i][1]-1][f.ipList[i][0]] = true
+				}
+			}
+			f.ipMaps[ones-1][nip&ipv4Masks[ones-1]] = true""",
+ """			var maps [32]map[uint32]bool
+			for i := 0; i < len(maps); i++ {
+				maps[i] = make(map[uint32]bool)
+			}
+			f.ipMaps = maps
+			f.mode = modeMaps
+			f.mutex.Unlock()
+			f.mutex.Lock()
+			for i := 0; i < f.index; i++ {
+				if f.ipList[i][1] > 0 {
+					f.ipMaps[f.ipList[i][1]-1][f.ipList[i][0]] = true
+				}
+			}
+			f.ipMaps[ones-1][nip&ipv4Masks[ones-1]] = true""")])
+mut("C12", "matchall-plain-bool", "util/netutil", [(FL,
+ """	matchAll *atomic.Bool""", """	matchAll *plainBool"""),
+ (FL, """func NewIPv4Filter() *IPv4Filter {
+	return &IPv4Filter{matchAll: &atomic.Bool{}, mode: modeList, index: 0}
+}""", """type plainBool struct{ v bool }
+
+func (b *plainBool) Load() bool   { return b.v }
+func (b *plainBool) Store(v bool) { b.v = v }
+
+var _ atomic.Bool
+
+func NewIPv4Filter() *IPv4Filter {
+	return &IPv4Filter{matchAll: &plainBool{}, mode: modeList, index: 0}
+}""")])
+mut("C12", "remove-takes-rlock", "util/netutil", [(FL,
+ """	nip := binary.BigEndian.Uint32(cidr.IP)
+
+	f.mutex.Lock()
+	defer f.mutex.Unlock()
+	if f.mode == modeList {
+		for i := 0; i < f.index; i++ {
+			if uint32(ones)""",
+ """	nip := binary.BigEndian.Uint32(cidr.IP)
+
+	f.mutex.RLock()
+	defer f.mutex.RUnlock()
+	if f.mode == modeList {
+		for i := 0; i < f.index; i++ {
+			if uint32(ones)""")])
+mut("C12", "lockfree-fastpath-on-stale-mode", "util/netutil", [(FL,
+ """	nip := binary.BigEndian.Uint32(ip)
+
+	f.mutex.RLock()
+	defer f.mutex.RUnlock()
+	if f.mode == modeList {""",
+ """	nip := binary.BigEndian.Uint32(ip)
+
+	if f.index == 0 {
+		return false
+	}
+	f.mutex.RLock()
+	defer f.mutex.RUnlock()
+	if f.mode == modeList {""")])
+
+
 def run(cmd, cwd=None, timeout=900, repo=None):
     env = dict(ENV)
     if repo:
